@@ -223,6 +223,8 @@ def gates(m, tier):
             out.append('no input of class %s' % k)
     if not m.counters.get('leak_sequences'):
         out.append('no retained-memory sequence ran')
+    if not m.counters.get('inputs:deep-underdeclared'):
+        out.append('no multi-level under-declared container input')
     if not m.counters.get('inputs:deep-length-skew'):
         out.append('no multi-level length-skew input')
     if not m.counters.get('memory_traced_calls'):
